@@ -375,6 +375,39 @@ def modes_reach(*a):
     return LAST[3] is None and any(list(v) != sorted(v) for _k, v in LAST[4][0]) and LAST[4][1] >= 2
 
 
+# ------------------------------------------------------------------ discovery order feeding the shuffle
+
+PKG_ARGV = [['-s', 'alpha', '-s', 'bravo', '-s', 'charlie', '-s', 'alpha/'], ['-s', 'charlie', '-s', 'alpha', '-s', 'bravo'],
+            ['-s', 'bravo/', '-s', 'alpha', '-s', 'bravo', '-s', 'charlie', '-s', 'alpha'], ['-s', 'delta.sub', '-s', 'delta/sub', '-s', 'alpha']]
+
+
+def pkgs(v):
+    """The pre-shuffle order inside a layer is the discovery order, which follows the order of the -s/--package options:
+    the real get_options must hand find.test_dirs the same package sequence in every interpreter (this harness runs under
+    several PYTHONHASHSEED values; the engine compares the sets of path summaries of the runs)."""
+    global LAST
+    argv = pick(PKG_ARGV, v)
+    with untraced():
+        from zope.testrunner.options import get_options
+        o = get_options(['t', '--path', '/r'] + list(argv), [])
+        got = list(o.package)
+        want = []
+        for a in argv:
+            if a != '-s':
+                n = a.rstrip('/').replace('/', '.')
+                want.append(n)
+        seen = []
+        for g in got:
+            if g not in seen:
+                seen.append(g)
+        exp = []
+        for w_ in want:
+            if w_ not in exp:
+                exp.append(w_)
+    LAST = (tuple(argv), tuple(got))
+    return seen == exp
+
+
 # ------------------------------------------------------------------ L-FLOOR
 
 def lfloor(nmax, timeout_ms=20000):
@@ -452,6 +485,11 @@ SPEC = {
          'bounds': {'quick': '0 <= si < 6 and 0 <= clock <= 3 and 0 <= sA <= 3', 'thorough': '0 <= si < 6 and 0 <= clock <= 3 and 0 <= sA <= 3'},
          'timeout': {'quick': 120, 'thorough': 300},
          'fidelity': [dict(si=4, clock=0, sA=2), dict(si=5, clock=2, sA=1)]},
+        {'name': 'pkgs', 'fn': 'pkgs', 'params': [('v', 'int')], 'call': 'v',
+         'bounds': {'quick': '0 <= v < %d' % len(PKG_ARGV), 'thorough': '0 <= v < %d' % len(PKG_ARGV)},
+         'hashseeds': [0, 1, 2, 3, 4, 5],
+         'timeout': {'quick': 120, 'thorough': 120},
+         'fidelity': [dict(v=0)]},
         {'name': 'modes', 'fn': 'modes', 'params': _PM, 'call': _MC,
          'bounds': {'quick': _MB + ' and sB == 2 and mode <= 4', 'thorough': _MB},
          'slices': {'quick': ['mode == %d and sA == %d' % (m, a) for m in range(5) for a in (0, 2, 3)],
